@@ -413,7 +413,7 @@ fn fold_schedules(ctx: &mut Ctx) {
     ctx.require("tag_schedules_lock_contended", "schedules in which a thread had to wait for a seam lock");
     ctx.extra("tag_schedules", json!({"present": true, "folded": true, "file": v}));
     let wall = v["wall_s"].as_f64().unwrap_or(0.0);
-    ctx.push_family("tags-schedules", &format!("shuttle check_dfs (every schedule) through the H1 sync seam: {}", bounds.join("; ")), v["exhaustive"] == true, None, wall, acc);
+    ctx.push_family("tags-schedules", &format!("shuttle check_dfs (every schedule) through the H1 sync seam: {}", bounds.join("; ")), v["exhaustive"] == true, v["caps_hit"].as_array().filter(|a| !a.is_empty()).map(|a| a.iter().filter_map(|x| x.as_str()).collect::<Vec<_>>().join("; ")), wall, acc);
 }
 
 fn u64s(v: &Value) -> Vec<u64> {
